@@ -195,7 +195,10 @@ func init() {
 			}
 			return []int{0, n - 1}[fr.i.choice(2)]
 		},
-		"math/rand.Int31":  func(fr *frame, a []value) value { return int32(12345) },
+		"math/rand.Int31": func(fr *frame, a []value) value {
+			fr.i.randCounter++
+			return int32(1000 + fr.i.randCounter)
+		},
 		"math/rand.Int63":  func(fr *frame, a []value) value { return int64(1234567) },
 		"math/rand.Uint32": func(fr *frame, a []value) value { return uint32(12345) },
 		"math/rand.Int":    func(fr *frame, a []value) value { return int(12345) },
